@@ -158,7 +158,7 @@ def replay_history(kind, hist, variant, **stackkw):
 
 
 def fakesock_seg(n):
-    return ["all", "bytes", (3, 1, 4, 1, 5, 9, 2, 6)][n % 3]
+    return ["all", "bytes", (3, 1, 4, 1, 5, 9, 2, 6), "aftercr", "beforelf"][n % 5]
 
 
 def export_histories(rep, depth, simulate=None, sim_depth=None, seed=0):
